@@ -135,7 +135,7 @@ def r15_tie_funnel(ctx):
                 for k in c.keywords:
                     if k.arg == 'order' and const_str(k.value) == 'tie':
                         ctx.bad(R, c, f, 'no selection is ordered by the tie-break order outside breakTie', "order='tie' used in %s" % f.qualname)
-    ctx.floor(R, 'byTieOrder call sites', n_calls, 9)
+    ctx.floor(R, 'byTieOrder call sites', n_calls, 8)
     # byTieOrder sorts ascending by tieOrder
     bto = repo.func('droop.candidates.Candidates.byTieOrder')
     rets = [n for n in bto.own_nodes() if isinstance(n, ast.Return)]
